@@ -87,14 +87,16 @@ def _case(rng, kind, sizes, nrounds=3):
 
 
 def generate(tier, rng):
-  reps = {'quick': 2, 'thorough': 48, 'search': 100}[tier]
+  if tier != 'search':
+    fs.prestart('c12', ['pmap3', 'rbg', 'hash1'] + ([] if tier == 'quick' else ['tfp0', 'tfp1', 'x64', 'rankraise', 'hash2']))
+  reps = {'quick': 1, 'thorough': 46, 'search': 100}[tier]
   again = []
   # Every algorithm instance of the process is built from the SAME per_example_loss / grad function objects
   # (fedsim.per_example_loss, fedsim.shared_grad).  Hidden module-level or closure state keyed on them would leak
   # hyper-parameters between instances: build each family with a NON-degenerate value first, then the degenerate one,
   # then another value, and re-run the first-built objects at the very end.
   for kind, vals in (('fedprox', [0.5, 0.0, 0.25]), ('mimelite_gen', [2.0, 1.0, 0.5]), ('mime_gen', [0.5, 1.0, 2.0])):
-    for noise in (True, False):
+    for noise in ((True,) if tier == 'quick' else (True, False)):
       for v in vals:
         c = _case(rng, kind, [3, 5, 2])
         c['noise'], c['copt'], c['sopt'], c['hp'] = noise, SGD(0.125), SGD(1.0), _hp(HPS[0], 3)
@@ -132,7 +134,7 @@ def generate(tier, rng):
       c['rounds'] = [[['2', 1], ['0', 2], ['1', 3], ['4', 4]], [['4', 5], ['3', 6], ['1', 7]]]
       c['backend'] = backend
       yield c
-  for kind in (('fedprox', 'mime_gen') if tier == 'quick' else ()):
+  for kind in (('fedprox',) if tier == 'quick' else ()):
     c = _case(rng, kind, [3, 9, 5, 7])
     c['hp'] = _hp((2, 1, None, False), 2)
     c['rounds'] = [[['2', 1], ['0', 2], ['1', 3], ['3', 4]], [['3', 5], ['1', 7]]]
@@ -153,6 +155,8 @@ def generate(tier, rng):
     c['forms'] = {'clients': 'list', 'ids': ['negint', 'int'][j % 2], 'init': 'jax', 'key': 'jax', 'leaves': 2}
     c['backend'] = ['pmap', 'jit'][j % 2]
     yield c
+    if tier == 'quick' and j % 2:
+      continue
     e = [-20, 10, 20, -10, 10, -20][j]
     c = _case(rng, kind, [4, 6, 3])
     c['scale'], c['noise'], c['hp'], c['reg'], c['xdtype'] = e, False, base_hp, 0.0, 'float32'   # 2**20 overflows float16
@@ -163,6 +167,21 @@ def generate(tier, rng):
     c = _case(rng, kind, [4, 6, 0])
     c['noise'], c['hp'], c['poison'] = False, base_hp, ['1', 2]
     c['rounds'] = [[['0', 1], ['2', 2]], [['1', 3], ['0', 4]], [['0', 5]]]
+    yield c
+  # WAVE5 items 1 / 6 / 4: memory layouts of the dataset arrays and numpy params, params in tuple / NamedTuple / list /
+  # nested dict / haiku FlatMap containers (result must keep the container), a second interpreter with another PYTHONHASHSEED
+  for j, kind in enumerate(('fedprox', 'hypcluster', 'mimelite1', 'mime1', 'apfl', 'fedprox0')):
+    c = _case(rng, kind, [5, 3, 0, 4])
+    c['hp'] = _hp((2, None, 1, False) if kind == 'mime1' else (2, 1, None, False), 1 + j)
+    c['layout'] = fs.LAYOUTS[1 + j]
+    c['forms'] = {'clients': 'tuple', 'ids': 'str', 'init': ['numpy_ro', 'numpy_nc', 'jax'][j % 3], 'key': 'jax',
+                  'leaves': ['tuple', 'named', 'list', 'nested', 'flatmap', 2][j]}
+    c['backend'] = ['jit', 'pmap'][j % 2]
+    yield c
+  for kind, ids in (('hypcluster', 'bytes'), ('mime_gen', 'str')) if tier == 'quick' else [(k, i) for k in KINDS for i in ('bytes', 'str')]:
+    c = _case(rng, kind, [4, 2, 6, 0])
+    c['forms'] = {'clients': 'list', 'ids': ids, 'init': 'jax', 'key': 'jax', 'leaves': 1}
+    c['hashcheck'] = 'hash1'
     yield c
   for flag in (['rbg'] if tier == 'quick' else ['rbg', 'tfp0', 'tfp1', 'x64', 'rankraise']):
     for kind in (('hypcluster', 'apfl_noise') if tier == 'quick' else KINDS):
@@ -177,8 +196,18 @@ def generate(tier, rng):
     c['rounds'] = [[['0', 1], ['1', 2]], [['1', 3], ['2', 4]], [['2', 5], ['3', 6], ['0', 7]]]
     if kind not in ('fedprox0', 'fedprox'):
       c['reg'] = 0.25                   # regularised objective
+    # WAVE5 item 5: the round AFTER a round without examples, with a STATEFUL server / base optimizer, for every algorithm
+    c['sopt'] = SGD(1.0, 0.5)
+    if kind in ('mime_gen', 'mimelite_gen'):
+      c['copt'] = SGD(0.125, 0.5)
     yield c
     again.append(c)
+    # a single client that is the whole population, one batch holding its whole dataset, applied three times
+    c = _case(rng, kind, [4])
+    c['hp'] = _hp((4, None, 1, False) if kind == 'mime1' else (4, 1, None, False), 2)
+    c['rounds'] = [[['0', 1]], [['0', 2]], [['0', 3]]]
+    c['sopt'] = SGD(0.5, 0.5)
+    yield c
     c = _case(rng, kind, [2, 5])        # a round without clients in the middle of a run
     c['rounds'] = [[['0', 1], ['1', 2]], [], [['1', 5], ['0', 7]]]
     if kind in ('mime_gen', 'mimelite_gen'):
@@ -227,8 +256,7 @@ def _make_aug(noise, mu):
   base = fs.per_example_loss(noise)
 
   def pel(params, batch, rng):
-    w = params['w'] if 'w' in params else jnp.concatenate([params['z1'], params['a0']])
-    dw = w[None, :] - batch['ws']
+    dw = fs.param_vector(params)[None, :] - batch['ws']
     return base(params, batch, rng) + 0.5 * mu * jnp.sum(dw * dw, axis=1)
   return pel
 
@@ -308,6 +336,11 @@ def _backend_of(case):
 
 def run(case):
   tag = case.get('flags') or ('pmap3' if case.get('backend') == 'pmap3' else None)
+  if tag is None and case.get('hashcheck'):
+    obs = run_local(case)
+    other = fs.run_in_worker('c12', case['hashcheck'], dict(case, hashcheck=None))
+    obs['other_process'] = {'a': other.get('a'), 'err': other.get('err_a') or other.get('worker_error')}
+    return obs
   if tag is None:
     return run_local(case)
   obs = fs.run_in_worker('c12', tag, case)
@@ -338,7 +371,7 @@ def run_local(case):
   alg_a = _cached(['a', _backend_of(case)] + cfg, lambda: _build(case, 'a'))
   alg_b = _cached(['b'] + cfg, lambda: _build(case, 'b'))
   pop = _pop(case)
-  cds = {c: fs.client_dataset(d, case.get('xdtype', 'float32')) for c, d in pop.items()}
+  cds = {c: fs.client_dataset(d, case.get('xdtype', 'float32'), case.get('layout', 'c')) for c, d in pop.items()}
   obs = {'err_a': None, 'err_b': None, 'a': [], 'b': [] if alg_b is not None else None, 'a_trace': [],
          'reinit': None, 'fresh': None, 'caller': []}
   obs['streams'] = {c: fs.record_stream(cds[c], case['hp']) for c in sorted(cds)}
@@ -403,7 +436,10 @@ def run_local(case):
     if obs['err_a'] is None:
       try:
         watch.watch('input params', fs.first_leaf(sa.cluster_params[0] if kind == 'hypcluster' else sa.params))
+        before = sa.cluster_params[0] if kind == 'hypcluster' else sa.params
         sa = step_a(alg_a, sa, rnd, watch)
+        if not fs.same_structure(before, sa.cluster_params[0] if kind == 'hypcluster' else sa.params):
+          obs['caller'].append('the returned params do not have the tree structure / container type of the input params')
         obs['a'].append(_params_of(kind, sa))
         obs['a_trace'].append(fs.trace_of(sa.opt_states[0] if kind == 'hypcluster' else sa.opt_state))
         kept.append((sa, obs['a'][-1]))
@@ -492,7 +528,9 @@ def oracle(case, obs):
   if any(not fs.finite(p) for p in obs['a']):
     return [(f'{kind}-non-finite', f'{kind}: non-finite server params {obs["a"]}')]
   for what in obs.get('caller', []):
-    out.append((f'{kind}-caller-data', what))
+    out.append((f'{kind}-tree-structure' if 'tree structure' in what else f'{kind}-caller-data', what))
+  if case.get('hashcheck') and 'other_process' in obs and (obs['other_process']['err'] or json.dumps(obs['other_process']['a']) != json.dumps(obs['a'])):
+    out.append((f'{kind}-process-dependent', f'another interpreter (other PYTHONHASHSEED) gives {obs["other_process"]} instead of {obs["a"]}'))
   for k in ('reinit', 'fresh'):
     if obs['a'] and (k == 'reinit' or case.get('fresh')) and (obs.get(k) is None or not fs.close(obs[k], obs['a'][0], 1e-7)):
       out.append((f'{kind}-{k}-differs', f'round 0 repeated from init() {"on a freshly built object" if k == "fresh" else "called again"}: {obs.get(k)} vs {obs["a"][0]}'))
@@ -568,6 +606,7 @@ def describe(case, obs):
           'regularizer': 'none' if not case.get('reg') else 'l2', 'backend': case.get('backend', 'jit'),
           'forms': '/'.join(str(case.get('forms', fs.FORMS0).get(k, 1)) for k in ('clients', 'ids', 'init', 'key', 'leaves')),
           'xdtype': case.get('xdtype', 'float32'), 'hparams_seed0': case['hp']['seed'] == 0,
+          'layout': case.get('layout', 'c'), 'hashcheck': case.get('hashcheck') or 'no',
           'data_scale_log2': case.get('scale', 0), 'jax_flags': case.get('flags') or 'default', 'poisoned': bool(case.get('poison')),
           'optimizer_chain': 'clipsgd' in (case['copt']['kind'], case['sopt']['kind']),
           # hypotheses of the theorems, checked on the generated case (a case that violates one is judged by the oracle /
